@@ -37,12 +37,15 @@ type regIn struct {
 // the history with a logical clock and checks it with porcupine against a
 // per-key register whose writes take effect somewhere inside Commit().
 // It must run in a child process: unsynchronised map access inside the store
-// is a fatal error that cannot be recovered.
-func ConcurrentDiag(seed int64) ConcResult {
+// is a fatal error that cannot be recovered. With versioned = false the
+// readers only use Get; with versioned = true half of the reads are
+// GetVersioned of an already committed version (ChainState.GetVersioned takes
+// no lock and reads the IAVL version map that SaveVersion writes).
+func ConcurrentDiag(seed int64, versioned bool) ConcResult {
 	const nKeys, nReaders, nBlocks = 3, 4, 2000
 	res := ConcResult{}
 	cs := storage.NewChainState("conc", tmdb.NewMemDB())
-	_ = cs.SetupRotation(config.ChainStateRotationCfg{Recent: 1000, Every: 0, Cycles: 0})
+	_ = cs.SetupRotation(config.ChainStateRotationCfg{Recent: 1 << 40, Every: 0, Cycles: 0})
 	keys := [][]byte{[]byte("k0"), []byte("k1"), []byte("k2")}
 	var clock, committed int64
 	var mu sync.Mutex
@@ -70,7 +73,7 @@ func ConcurrentDiag(seed int64) ConcResult {
 						}
 					}()
 					k := rng.Intn(nKeys)
-					if rng.Intn(4) == 0 {
+					if versioned && rng.Intn(2) == 0 {
 						v := atomic.LoadInt64(&committed)
 						if v < 1 {
 							return
